@@ -2,7 +2,7 @@
 """Property-preserving changes (false-alarm probes); not a registered check.
 
   tools/benign.py add <dir-with-patch.diff+demo.rs+README.md> <name>   verify and store under benign/<name>/
-  tools/benign.py run [<name> ...]                                      run all twenty quick checks against each stored change
+  tools/benign.py run [<name> ...] [--props C03,C07]                     run all twenty (or the named) quick checks against each stored change
   tools/benign.py table
 
 A change is kept if, on a scratch copy of /repo's HEAD: the patch applies, the crate compiles, the 70 + 5 tests pass with it,
@@ -111,7 +111,7 @@ def add(src, name):
     return ok
 
 
-def run(names):
+def run(names, props=None):
     for name in names:
         o = os.path.join(HERE, "benign", name)
         meta = json.load(open(o + "/meta.json"))
@@ -120,8 +120,12 @@ def run(names):
         if rc != 0:
             print(f"{name:24s} does not apply to the current HEAD (superseded): skipped", flush=True)
             continue
-        meta["alarms"] = {}
-        for pid in ALL:
+        if props is None:
+            meta["alarms"] = {}
+        else:
+            for pid in props:
+                meta["alarms"].pop(pid, None)
+        for pid in (props or ALL):
             t0 = time.time()
             for attempt in range(4):
                 rc, out = sh(f"{HERE}/tools/run_on_tree.sh {tree} {pid} --tier quick", env={"MUT_OUT": d + "/out", "MUT_TARGET": f"{SCR}/harness-target-" + os.environ.get("SEEDED_SLOT", "0"), "VERIF_SEED": "5"})
@@ -149,7 +153,13 @@ if __name__ == "__main__":
     if a and a[0] == "add":
         sys.exit(0 if add(a[1], a[2]) else 1)
     elif a and a[0] == "run":
-        names = a[1:] or sorted(os.listdir(os.path.join(HERE, "benign")))
-        run(names)
+        props = None
+        rest = a[1:]
+        if "--props" in rest:
+            i = rest.index("--props")
+            props = rest[i + 1].split(",")
+            rest = rest[:i] + rest[i + 2:]
+        names = rest or sorted(os.listdir(os.path.join(HERE, "benign")))
+        run(names, props)
     elif a and a[0] == "table":
         table()
